@@ -100,6 +100,72 @@ fn run_net1(client: &Table, server: &Table) -> Result<(Reply, Option<(u64, Data)
     Ok((reply, r.map(|(v, d)| (v, conv(&d)))))
 }
 
+// ---- node-to-client data of pallas-network: (magic, query flag or none = bare-magic form)
+
+fn n2c_data(d: &Data) -> hs1::n2c::VersionData {
+    hs1::n2c::VersionData::new(d.0, d.3)
+}
+
+/// The fields of n2c version data are private: read them back from the encoding
+/// (a bare unsigned magic, or `[magic, query]`).
+fn n2c_view(d: &hs1::n2c::VersionData) -> Result<Data, String> {
+    let b = minicbor::to_vec(d).map_err(|e| format!("cannot encode n2c version data: {e}"))?;
+    let n = mc_core::refcbor::parse_one(&b).map_err(|e| format!("n2c version data is not CBOR: {e:?}"))?;
+    if let Some(m) = n.as_u64() {
+        return Ok((m, false, None, None));
+    }
+    let a = n.as_array().ok_or("n2c version data: neither uint nor array")?;
+    let m = a.first().and_then(|x| x.as_u64()).ok_or("n2c version data: magic")?;
+    let q = match a.get(1).map(|x| x.span(&b)) {
+        Some([0xf5]) => true,
+        Some([0xf4]) => false,
+        _ => return Err("n2c version data: query flag".into()),
+    };
+    Ok((m, false, None, Some(q)))
+}
+
+fn run_net1_n2c(client: &Table, server: &Table) -> Result<(Reply, Option<(u64, Data)>), String> {
+    let mut rig = Rig::new(4096);
+    let (cch, sch) = rig.pair(0);
+    let mk = |t: &Table| hs1::n2c::VersionTable { values: t.iter().map(|(k, d)| (*k, n2c_data(d))).collect() };
+    let (ct, st) = (mk(client), mk(server));
+    let out = rig.drive(async move {
+        let mut raw = ChannelBuffer::new(cch);
+        let mut srv = hs1::N2CServer::new(sch);
+        raw.send_msg_chunks(&hs1::Message::<hs1::n2c::VersionData>::Propose(ct)).await.map_err(|e| format!("raw send: {e}"))?;
+        let r = srv.handshake(st).await.map_err(|e| format!("server.handshake: {e}"))?;
+        let reply: hs1::Message<hs1::n2c::VersionData> = raw.recv_full_msg().await.map_err(|e| format!("raw recv: {e}"))?;
+        Ok::<_, String>((r, reply, srv.is_done()))
+    });
+    let (r, reply, done) = out.ok_or_else(|| "handshake blocked (system quiescent)".to_string())??;
+    if !done {
+        return Err("server not in Done state after handshake".into());
+    }
+    let reply = match reply {
+        hs1::Message::Accept(v, d) => Reply::Accept(v, n2c_view(&d)?),
+        hs1::Message::Refuse(hs1::RefuseReason::VersionMismatch(l)) => Reply::VersionMismatch(l),
+        hs1::Message::Refuse(o) => Reply::RefusedOther(format!("{o:?}")),
+        o => Reply::Other(format!("{o:?}")),
+    };
+    let acc = match r {
+        Some((v, d)) => Some((v, n2c_view(&d)?)),
+        None => None,
+    };
+    Ok((reply, acc))
+}
+
+/// n2c data options: {absent, A/false, B/false, A/true, A bare, B bare}
+fn data_n2c(opt: u8) -> Option<Data> {
+    match opt {
+        0 => None,
+        1 => Some((MAGIC_A, false, None, Some(false))),
+        2 => Some((MAGIC_B, false, None, Some(false))),
+        3 => Some((MAGIC_A, false, None, Some(true))),
+        4 => Some((MAGIC_A, false, None, None)),
+        _ => Some((MAGIC_B, false, None, None)),
+    }
+}
+
 fn run_net2(client: &Table, server: &Table) -> Result<(Reply, Option<(u64, Data)>), String> {
     let mk = |t: &Table| hs2::n2n::VersionTable { values: t.iter().map(|(k, d)| (*k, hs2::n2n::VersionData::new(d.0, d.1, d.2, d.3))).collect() };
     let mut b = ResponderBehavior::default();
@@ -198,6 +264,39 @@ pub fn run(ctx: Ctx) -> ! {
     } else {
         // all seven data options (shapes x magics x switched-off parameters) on two versions
         passes.push((7, vec![13, 14]));
+    }
+    // node-to-client negotiation of pallas-network: every pair of tables over three n2c versions
+    // (two in quick) x the six data options (both encodings of the version data x both magics)
+    {
+        let versions: Vec<u64> = if ctx.thorough { vec![32783, 32784, 32785] } else { vec![32783, 32784] };
+        let pn = 6usize.pow(versions.len() as u32);
+        let mk = |code: usize| -> Table {
+            let mut t = BTreeMap::new();
+            let mut c = code;
+            for &v in &versions {
+                if let Some(d) = data_n2c((c % 6) as u8) {
+                    t.insert(v, d);
+                }
+                c /= 6;
+            }
+            t
+        };
+        (0..pn * pn).into_par_iter().for_each(|code| {
+            let (c, s) = (mk(code / pn), mk(code % pn));
+            let stack = "network-n2c";
+            evals.fetch_add(1, Ordering::Relaxed);
+            let case = || json!({"stack": stack, "client_table": format!("{c:?}"), "server_table": format!("{s:?}")});
+            match catch(|| run_net1_n2c(&c, &s)) {
+                Err(p) => ctx.violation(p.site(), format!("{stack} handshake responder panicked: {} at {}", p.message, p.location), case()),
+                Ok(Err(e)) => ctx.violation(format!("C25:{stack}:error"), e, case()),
+                Ok(Ok((reply, acc))) => match oracle(&c, &s, &reply, &acc) {
+                    Ok(class) => {
+                        *outcomes.lock().unwrap().entry(format!("{stack}:{class}")).or_default() += 1;
+                    }
+                    Err((fp, what)) => ctx.violation(format!("C25:{stack}:{fp}"), format!("{what}; reply {reply:?}"), case()),
+                },
+            }
+        });
     }
     for (popts, versions) in &passes {
     let pn = popts.pow(versions.len() as u32);
